@@ -104,6 +104,36 @@ Section Spec.
     else if String.eqb n "ID" then match j with JStr _ => true | JInt z => in_i64 z | _ => false end
     else negb (is_null j).                       (* custom scalar: any non-null value *)
 
+  (* what a value at a position of named type tn with sub-selection sub must be; `rec` judges the
+     objects below *)
+  Definition leaf_of (rec : string -> list sel -> list (string * json) -> bool) (tn : string) (sub : list sel)
+    : json -> bool :=
+    match find_kind_sdl s tn with
+    | Some KScalar => scalar_leaf tn
+    | Some KEnum => fun j => match j, find_enum s tn with
+                             | JStr x, Some vs => mem_str x vs | _, _ => false end
+    | Some KObject | Some KInterface | Some KUnion =>
+        (* a composite field needs a sub-selection (else the document is invalid and nothing conforms) *)
+        fun j => match j, sub with
+                 | JObj m', _ :: _ => existsb (fun rt' => rec rt' sub m') (possible tn)
+                 | _, _ => false end
+    | _ => fun _ => false
+    end.
+
+  (* one collected field against the object's entries *)
+  Definition field_ok (rec : string -> list sel -> list (string * json) -> bool) (rt : string)
+             (m : list (string * json)) (fl : string * (string * list sel)) : bool :=
+    let '(k, (n, sub)) := fl in
+    match obj_get k m with
+    | None => false
+    | Some v =>
+        if String.eqb n "__typename" then json_eqb v (JStr rt)
+        else match field_def rt n with
+             | None => false
+             | Some fd => ctype (leaf_of rec (gname (fd_type fd)) sub) true (fd_type fd) v
+             end
+    end.
+
   (* the payload of a selection set executed on an object of runtime type rt; fuel bounds the
      nesting of objects (S (jdepth payload) suffices) *)
   Fixpoint cobj (fuel : nat) (rt : string) (sels : list sel) (m : list (string * json)) {struct fuel} : bool :=
@@ -113,32 +143,7 @@ Section Spec.
         let fields := collected rt sels in
         nodup_str (map fst m) &&
         forallb (fun e => mem_str (fst e) (map fst fields)) m &&
-        forallb (fun fl =>
-          let '(k, (n, sub)) := fl in
-          match obj_get k m with
-          | None => false
-          | Some v =>
-              if String.eqb n "__typename" then json_eqb v (JStr rt)
-              else match field_def rt n with
-                   | None => false
-                   | Some fd =>
-                       let tn := gname (fd_type fd) in
-                       let leaf :=
-                         match find_kind_sdl s tn with
-                         | Some KScalar => scalar_leaf tn
-                         | Some KEnum => fun j => match j, find_enum s tn with
-                                                  | JStr x, Some vs => mem_str x vs | _, _ => false end
-                         | Some KObject | Some KInterface | Some KUnion =>
-                             (* a composite field needs a sub-selection (else the document is invalid
-                                and nothing conforms) *)
-                             fun j => match j, sub with
-                                      | JObj m', _ :: _ => existsb (fun rt' => cobj f rt' sub m') (possible tn)
-                                      | _, _ => false end
-                         | _ => fun _ => false
-                         end in
-                       ctype leaf true (fd_type fd) v
-                   end
-          end) fields
+        forallb (field_ok (cobj f) rt m) fields
     end.
 
   (* ---------- the class "field merging is needed": somewhere in the operation a response key is
